@@ -302,6 +302,7 @@ FUNCTIONS['LOOKUP'] = wrap_ufunc(
 
 
 def args_parser_hlookup(val, vec, index, match_type=1, transpose=False):
+    raise_errors(index, match_type)
     index = int(_text2num(np.ravel(index)[0]) - 1)
     vec = np.matrix(vec)
     if transpose:
